@@ -26,6 +26,7 @@ func main() {
 	noEvidence := flag.Bool("no-evidence", false, "write evidence/replay under a scratch dir instead of -verif")
 	evdir := flag.String("evdir", "", "directory that receives evidence/ (default: -verif)")
 	list := flag.Bool("list", false, "list properties")
+	goarch := flag.String("goarch", "", "analyse for another GOARCH (e.g. 386: integer widths)")
 	flag.Parse()
 
 	if *list {
@@ -67,7 +68,11 @@ func main() {
 	sort.Strings(ids)
 	start := time.Now()
 	whole := *tier == "thorough"
-	p, err := core.Load(*repo, whole)
+	var extra []string
+	if *goarch != "" {
+		extra = append(extra, "GOARCH="+*goarch, "CGO_ENABLED=0")
+	}
+	p, err := core.Load(*repo, whole, extra...)
 	if err != nil {
 		fmt.Fprintln(os.Stderr, err)
 		os.Exit(2)
@@ -97,6 +102,9 @@ func main() {
 				}
 			}()
 			rules.Get(id)(c)
+			if *tier == "thorough" && *rule == "" {
+				rules.Thorough(c, *goarch)
+			}
 		}()
 		res := c.Finish(out, kf, t0, seed)
 		if res.Violations > 0 {
